@@ -108,6 +108,13 @@ func (m *Machine) envIntrinsic2(name string, fn *ssa.Function, args []Value) (Va
 		if w.t == nil {
 			m.goPanic("Fprintf to nil writer")
 		}
+		if fw, isFail := w.v.(*FailWriterObj); isFail {
+			// one Write per Fprint* call, as in package fmt
+			if fw.left <= 0 {
+				return TupleV{c.IntI(SI64, 0), m.newErr("vrt: text output failed", nil)}, true
+			}
+			fw.left--
+		}
 		m.sideEffect(name)
 		rec := LogRec{Format: format}
 		for i := 0; i < va.len; i++ {
@@ -303,6 +310,14 @@ func (m *Machine) invokeOpaque2(iv IfaceV, method *types.Func, args []Value) (Va
 				return v, true
 			}
 		}
+	case *FailWriterObj:
+		if method.Name() == "Write" {
+			if o.left <= 0 {
+				return TupleV{m.ctx.IntI(SI64, 0), m.newErr("vrt: text output failed", nil)}, true
+			}
+			o.left--
+			return TupleV{m.ctx.IntI(SI64, int64(args[0].(SliceV).len)), IfaceV{}}, true
+		}
 	case *DiscardObj:
 		if method.Name() == "Write" {
 			return TupleV{m.ctx.IntI(SI64, int64(args[0].(SliceV).len)), IfaceV{}}, true
@@ -312,6 +327,9 @@ func (m *Machine) invokeOpaque2(iv IfaceV, method *types.Func, args []Value) (Va
 }
 
 type DiscardObj struct{}
+
+// FailWriterObj: vrt.FailWriter - writes fail once `left` successful ones have happened
+type FailWriterObj struct{ left int }
 
 var discardType = types.NewPointer(types.NewNamed(types.NewTypeName(0, nil, "intrinsicDiscard", nil), types.NewStruct(nil, nil), nil))
 
